@@ -25,19 +25,47 @@ WellFormed(x) ==
 Comparable(x, y) == x.k = y.k /\ (x.k = "flt" => x.b = y.b)
 
 \* finite floats of one base: align the exponents, compare the integers
+FltCmpExact(x, y) ==
+  LET e == Min2(x.exp, y.exp)
+      bb == FromNat(x.b)
+      px == IMul(x.sig, IFromNat(Pow(bb, x.exp - e)))
+      py == IMul(y.sig, IFromNat(Pow(bb, y.exp - e)))
+  IN ICmp(px, py)
+(* The same decided from bounds of 1000 * log2 |value| when they separate the magnitudes (saves the
+   big powers for operands that are far apart).  log2(10) lies in [3.321, 3.322]; other bases take
+   the exact path.  MC_OrderDef checks FltCmp = FltCmpExact exhaustively in a small scope. *)
+LogLo(x) == (BitLen(x.sig.m) - 1) * 1000 + (IF x.b = 2 THEN x.exp * 1000 ELSE IF x.exp >= 0 THEN x.exp * 3321 ELSE x.exp * 3322)
+LogHi(x) == BitLen(x.sig.m) * 1000 + (IF x.b = 2 THEN x.exp * 1000 ELSE IF x.exp >= 0 THEN x.exp * 3322 ELSE x.exp * 3321)
 FltCmp(x, y) ==
   IF x.inf # 0 \/ y.inf # 0
   THEN (IF x.inf = y.inf THEN 0 ELSE IF x.inf < y.inf THEN -1 ELSE 1)
-  ELSE LET e == Min2(x.exp, y.exp)
-           bb == FromNat(x.b)
-           px == IMul(x.sig, IFromNat(Pow(bb, x.exp - e)))
-           py == IMul(y.sig, IFromNat(Pow(bb, y.exp - e)))
-       IN ICmp(px, py)
+  ELSE LET sx == ISign(x.sig)
+           sy == ISign(y.sig)
+       IN IF sx # sy THEN (IF sx < sy THEN -1 ELSE 1)
+          ELSE IF sx = 0 THEN 0
+          ELSE IF x.b \in {2, 10} /\ x.exp > -10000 /\ x.exp < 10000 /\ y.exp > -10000 /\ y.exp < 10000
+                  /\ LogLo(x) >= LogHi(y) THEN sx
+          ELSE IF x.b \in {2, 10} /\ x.exp > -10000 /\ x.exp < 10000 /\ y.exp > -10000 /\ y.exp < 10000
+                  /\ LogLo(y) >= LogHi(x) THEN -sx
+          ELSE FltCmpExact(x, y)
+
+\* rationals: cross multiplication (Rat!QCmp), skipped when bit lengths already separate the magnitudes:
+\* 2^(bn - 1 - bd) < |n / d| < 2^(bn - bd + 1) for bit lengths bn, bd of n and d
+RatLo(p) == BitLen(p.n.m) - 1 - BitLen(p.d)
+RatHi(p) == BitLen(p.n.m) - BitLen(p.d) + 1
+RatCmp(p, q) ==
+  LET sp == QSign(p)
+      sq == QSign(q)
+  IN IF sp # sq THEN (IF sp < sq THEN -1 ELSE 1)
+     ELSE IF sp = 0 THEN 0
+     ELSE IF RatLo(p) >= RatHi(q) THEN sp
+     ELSE IF RatLo(q) >= RatHi(p) THEN -sp
+     ELSE QCmp(p, q)
 
 \* the order of the mathematical values: -1, 0, 1
 VCmp(x, y) ==
   CASE x.k = "int" -> ICmp(x.i, y.i)
-    [] x.k = "rat" -> QCmp(x.q, y.q)
+    [] x.k = "rat" -> RatCmp(x.q, y.q)
     [] x.k = "flt" -> FltCmp(x, y)
 
 (* What the property demands of one ordered pair (x, y) with c = VCmp(x, y), given the observed
